@@ -2,11 +2,11 @@
 # Run the quick (or $1) tier of every claimed check in sequence; summary on stdout, logs in /root/scratch/runall/
 cd "$(dirname "$0")/.." || exit 2
 TIER=${1:-quick}
-mkdir -p /root/scratch/runall
+L=${LOGDIR:-/root/scratch/runall}; mkdir -p $L
 for id in $(python3 -c "import json; print(' '.join(c['property_id'] for c in json.load(open('MANIFEST.json'))['checks']))"); do
   s=$(date +%s)
-  ./check $id --tier $TIER > /root/scratch/runall/$id.log 2>&1
+  ./check $id --tier $TIER > $L/$id.log 2>&1
   rc=$?
   e=$(date +%s)
-  echo "$id rc=$rc $((e-s))s $(grep -c '^VIOLATION' /root/scratch/runall/$id.log) violation(s) $(grep -c '^KNOWN-FINDING' /root/scratch/runall/$id.log) known | $(tail -1 /root/scratch/runall/$id.log | cut -c1-150)"
+  echo "$id rc=$rc $((e-s))s $(grep -c '^VIOLATION' $L/$id.log) violation(s) $(grep -c '^KNOWN-FINDING' $L/$id.log) known | $(tail -1 $L/$id.log | cut -c1-150)"
 done
